@@ -385,10 +385,113 @@ fn explore_c<const C: usize>(ctx: &Ctx, rep: &mut Report, cfg: RibCfg, levels: V
         rep.violation(Violation { prop: "C15", class: "capture-length".into(), detail: format!("a fresh controller at {} Hz reports a press after {} samples; the capture buffer holds {} (expected between {} and {})", cfg.fs, l, C, C, 2 * C), machine: "ribbon", config: m.config(), ops: vec![format!("poll:0.4*{}", l)] });
     }
     rep.count("calibrations", 1);
-    let r = explore(m, &ExploreCfg { max_depth, state_cap: 6_000_000, threads: ctx.threads, label: format!("{} (capacity {}, press after {} samples)", label, C, l) }, rep, props);
+    let r = explore(m, &ExploreCfg { max_depth, state_cap: 12_000_000, threads: ctx.threads, label: format!("{} (capacity {}, press after {} samples)", label, C, l) }, rep, props);
     if max_depth.is_none() && !r.fixpoint && !r.cap_hit {
         rep.machinery(format!("{}: no fixpoint", label));
     }
+}
+
+/// E2 for the larger capacities (where the full buffer contents cannot be enumerated): every press that is
+/// piecewise constant with at most two level switches at every pair of positions (every `stride`-th position for
+/// the largest buffers), preceded by nothing / a one-sample tap / a tap one sample short of a press / a complete
+/// earlier press at another level, and followed by a lift and two more in-range samples.
+fn piecewise_c<const C: usize>(ctx: &Ctx, rep: &mut Report, cfg: RibCfg, stride: usize, props: &[&'static str]) {
+    let probe = match RibM::<C>::new(cfg, vec![], true, false, u32::MAX) {
+        Ok(m) => m,
+        Err(_) => return,
+    };
+    let l = probe.m.l;
+    let b = cfg.boundary();
+    let (lo, hi) = (0.15 * b, 0.85 * b);
+    let len = l + C + 3;
+    let mut pos: Vec<usize> = (0..=len).filter(|p| p % stride == 0 || *p + 2 >= len || *p <= 2 || (*p + 2 >= l && *p <= l + 2)).collect();
+    pos.dedup();
+    let mut jobs: Vec<(usize, usize, usize, bool)> = Vec::new();
+    for pre in 0..4usize {
+        for (i, &s1) in pos.iter().enumerate() {
+            for &s2 in &pos[i..] {
+                jobs.push((pre, s1, s2, false));
+                jobs.push((pre, s1, s2, true));
+            }
+        }
+    }
+    let jr = &jobs;
+    let pv: Vec<&'static str> = props.to_vec();
+    let pr = &pv;
+    par_ranges(ctx, rep, jobs.len() as u64, 1024, |_, lo_i, hi_i, lc| {
+        for j in lo_i..hi_i {
+            let (pre, s1, s2, start_hi) = jr[j as usize];
+            let mut m = match RibM::<C>::new(cfg, vec![], true, C <= 18, u32::MAX) {
+                Ok(m) => m,
+                Err(_) => return,
+            };
+            let mut samples: Vec<f32> = Vec::new();
+            match pre {
+                1 => samples.extend([0.5 * b, 1.0]),
+                2 => {
+                    samples.extend(std::iter::repeat(0.5 * b).take(l - 1));
+                    samples.push(1.0);
+                }
+                3 => {
+                    samples.extend(std::iter::repeat(0.5 * b).take(l + 2));
+                    samples.push(1.0);
+                }
+                _ => {}
+            }
+            for k in 0..len {
+                let first = if start_hi { hi } else { lo };
+                let second = if start_hi { lo } else { hi };
+                samples.push(if k < s1 { first } else if k < s2 { second } else { first });
+            }
+            samples.extend([1.0, lo, hi]);
+            for (n, x) in samples.iter().enumerate() {
+                let mut out = StepOut::new();
+                let r = std::panic::catch_unwind(std::panic::AssertUnwindSafe(|| m.apply(&ROp::Poll(*x), &mut out)));
+                for (k, c) in out.counts {
+                    lc.count(k, c);
+                }
+                let script = || -> Vec<String> {
+                    // run-length encode the samples fed so far
+                    let mut v: Vec<String> = Vec::new();
+                    let mut i = 0;
+                    while i <= n {
+                        let mut e = i;
+                        while e + 1 <= n && samples[e + 1] == samples[i] {
+                            e += 1;
+                        }
+                        v.push(if e > i { format!("poll:{:?}*{}", samples[i], e - i + 1) } else { format!("poll:{:?}", samples[i]) });
+                        i = e + 1;
+                    }
+                    v
+                };
+                if let Err(e) = r {
+                    for p in pr.iter() {
+                        lc.violation(Violation { prop: p, class: "panic".into(), detail: format!("the real code panicked: {}", panic_msg(&e)), machine: "ribbon", config: m.config(), ops: script() });
+                    }
+                    break;
+                }
+                let mut stop = false;
+                for f in out.flags {
+                    if pr.contains(&f.prop) {
+                        let already = lc.per_class.get(&f.class).copied().unwrap_or(0);
+                        let s = if already < PER_CLASS_CAP { script() } else { Vec::new() };
+                        lc.violation(Violation { prop: f.prop, class: f.class, detail: f.detail, machine: "ribbon", config: m.config(), ops: s });
+                        stop = true;
+                    }
+                }
+                if stop {
+                    break;
+                }
+            }
+            lc.count("piecewise_constant_presses", 1);
+        }
+    });
+    let n = jobs.len() as u64;
+    rep.evaluations += n;
+    rep.states += n * len as u64;
+    rep.transitions += n * len as u64;
+    rep.traces += n;
+    rep.subruns.push(json!({"engine": "E2-sweep", "what": "piecewise-constant presses with <= 2 level switches at every pair of positions, 4 kinds of earlier activity", "fs": cfg.fs, "capacity": C, "press_needs": l, "positions": pos.len(), "sequences": n}));
 }
 
 pub fn sr_cross<const C: usize>(ctx: &Ctx, rep: &mut Report, cfg: RibCfg, levels: Vec<f32>, props: &[&'static str]) {
@@ -448,9 +551,9 @@ pub fn c16(ctx: &Ctx) -> Report {
         // (sample rate, in-range levels as fractions of the boundary, reported presses explored, depth bound)
         let runs: Vec<(u32, Vec<f32>, u32, Option<u32>)> = if ti == 0 {
             if thorough {
-                vec![(100, vec![0.1, 0.5, 0.9], 3, None), (334, vec![0.1, 0.5, 0.9], 2, None), (500, vec![0.1, 0.9], 2, None), (1000, vec![0.1, 0.9], 2, Some(24))]
+                vec![(100, vec![0.1, 0.5, 0.9], 3, None), (334, vec![0.1, 0.5, 0.9], 3, None), (500, vec![0.1, 0.5, 0.9], 2, None), (1000, vec![0.1, 0.9], 1, Some(21))]
             } else {
-                vec![(100, vec![0.1, 0.5, 0.9], 3, None), (334, vec![0.1, 0.9], 2, None), (500, vec![0.1, 0.9], 2, Some(21))]
+                vec![(100, vec![0.1, 0.5, 0.9], 3, None), (334, vec![0.1, 0.5, 0.9], 2, None), (500, vec![0.1, 0.9], 2, None)]
             }
         } else {
             vec![(100, vec![0.1, 0.5, 0.9], 2, None), (334, vec![0.1, 0.9], 2, None)]
@@ -463,6 +566,13 @@ pub fn c16(ctx: &Ctx) -> Report {
             with_capacity!(fs, explore_c, ctx, &mut rep, cfg, levels, true, fs <= 500, mp, depth, p, &format!("position value at {} Hz, resistors {:?}", fs, t));
         }
     }
+    for (ti, t) in TRIPLES.iter().enumerate() {
+        let rates: Vec<(u32, usize)> = if thorough { if ti == 0 { vec![(500, 1), (1000, 1), (2000, 1), (10000, 2)] } else { vec![(1000, 1), (2000, 1), (10000, 5)] } } else if ti == 0 { vec![(1000, 1), (2000, 1), (10000, 15)] } else { vec![(1000, 1), (2000, 2)] };
+        for (fs, stride) in rates {
+            let cfg = RibCfg { fs, softpot: t.0, dropper: t.1, pullup: t.2 };
+            with_capacity!(fs, piecewise_c, ctx, &mut rep, cfg, stride, p);
+        }
+    }
     if thorough {
         let cfg = RibCfg { fs: 334, softpot: 20e3, dropper: 820.0, pullup: 1e6 };
         let b = cfg.boundary();
@@ -472,6 +582,7 @@ pub fn c16(ctx: &Ctx) -> Report {
     rep.require_nonzero("values_checked_with_mixed_contributors");
     rep.require_nonzero("values_checked_while_lifted");
     rep.require_nonzero("monotonicity_comparisons");
+    rep.require_nonzero("piecewise_constant_presses");
     rep.assumptions.push("the pull-up correction is the documented estimate c(m) = m - (m - m^2)*(softpot+dropper)/pullup".into());
     rep
 }
